@@ -171,7 +171,7 @@ def extra(uni, tier, seed):
     """BOUNDED stand-in, never counted as proved"""
     from pyvc.runner import Extra
     from realise import C26 as R
-    n_ok, bad = R.summary_parallel()
+    n_ok, bad = R.summary_parallel(thorough=(tier == "thorough"))
     out = []
     groups = {}
     for cname, rows in bad.items():
